@@ -32,8 +32,8 @@
 (*   DataChannel::SetDisableInterrupt = SetDis: takes the channel mutex since 2b7c59d; the      *)
 (*                            code as first pinned had NO LOCK there (defect D7, kept behind    *)
 (*                            FixedDisableIrqLock = FALSE in MC_ApbpConc_pinned.cfg)            *)
-(*   MMIO writes of ICU::vector_*     = SetVec: plain stores, no lock (read by Trigger under   *)
-(*                            the ICU mutex on whichever thread triggers)                      *)
+(*   MMIO writes of ICU::vector_*     = SetVec: under the ICU mutex since fix c4156dd (plain    *)
+(*                            stores in the pinned code; read by Trigger under the mutex)      *)
 (* Deviations of the pinned code are behind CONSTANTs (FixedDisableIrqLock, FixedVectorLock);   *)
 (* HandlerInsideLock is a seeded mutation used to show that the deadlock property bites.       *)
 (*                                                                                              *)
@@ -61,7 +61,7 @@ CONSTANTS
     Chans,                \* channel indices in use ({0} or {0,1} in MC; {0,1,2} in traces)
     SemFull,              \* all semaphore bits (3 = two bits in MC; 65535 in traces)
     FixedDisableIrqLock,  \* TRUE: SetDisableInterrupt takes the channel mutex (proposed patch); FALSE: as pinned
-    FixedVectorLock,      \* TRUE: vector-register writes take the ICU mutex (hypothetical); FALSE: as pinned
+    FixedVectorLock,      \* TRUE: vector-register writes take the ICU mutex (fix c4156dd); FALSE: as pinned
     HandlerInsideLock,    \* FALSE: as pinned; TRUE: mutation -- DataChannel::Send calls the handler inside the lock
     VectoredOn,           \* irq 14 also enabled for vectored delivery (then Trigger reads the vector registers)
     NSend,                \* host sends per channel (value of the k-th send on a channel is k)
